@@ -21,7 +21,7 @@
  "name": "validate_entry_inline",
  "props": ["C06"],
  "level": "B(64)",
- "tier": "wip",
+ "tier": "quick",
  "harness": "h_validate_entry_inline",
  "enforce": ["ext2fs_validate_entry"],
  "unwind": 10,
